@@ -15,7 +15,7 @@ From PV Require Import Regex Base LexTables NodeModel ParserBase ParserDecl Pars
         out+=f"(* {comment} *)\nTheorem {name} :\n{stmt}\nProof. exact ex_{name}. Qed.\nPrint Assumptions {name}.\n\n"
     out+=extra
     open(f'/verif/coq/props/{prop}.v','w').write(out)
-mk("C03","declaration ASTs encode C declarator semantics for every declared name","DeclExamples"," AstSpec DeclProofs DeclRefine",
+mk("C03","declaration ASTs encode C declarator semantics for every declared name","DeclExamples"," AstSpec DeclProofs DeclRefine BuildDecls",
 '''(* _type_modify_decl splices the modifier chain between the declarator's own chain and its TypeDecl,
    for a declarator chain and a modifier chain (pointer prefix, array / function suffix) of ANY length *)
 Theorem C03_modify_splice : forall (P: Type) ld fs co lm fuel s, lm <> [] -> (length ld + length lm <= fuel)%nat ->
@@ -48,6 +48,14 @@ Theorem C03_pointer_order : forall (P: Type) f (s s': pstate P) p, p_pointer P f
   exists stars, stars <> [] /\\ p_pointer_stars P f s = Ok (stars, s') /\\ p = build P (rev (map (mkptr P) stars)) VNone.
 Proof. exact p_pointer_ok. Qed.
 Print Assumptions C03_pointer_order.
+
+(* "each declared entity gets its own Decl": the loop of _build_declarations over a declarator list of ANY length
+   returns exactly one node per declarator, in source order, the i-th built by build_one from the i-th declarator *)
+Theorem C03_one_decl_per_declarator : forall (P: Type) ds spec it tns (s: pstate P) decls spec' s',
+  build_loop P spec it tns ds s = Ok ((decls, spec'), s') ->
+  Forall2 (fun d r => exists sp sp' sa sb, build_one P sp it tns d sa = Ok ((r, sp'), sb)) ds decls.
+Proof. exact build_loop_one_per_declarator. Qed.
+Print Assumptions C03_one_decl_per_declarator.
 ''')
 mk("C05","statement ASTs mirror C's statement nesting and source order","StmtExamples"," AstSpec StmtProofs ElseProofs StmtShape",
 '''(* fix_switch_cases: for a switch body of ANY length whose label chains have ANY depth, the regrouped
